@@ -170,6 +170,48 @@ func provDeepN(w *load.World, v ssa.Value, depth int) ssax.Origins {
 
 var pureHashes = []string{"github.com/cespare/xxhash.Sum64String", "github.com/cespare/xxhash.Sum64", "github.com/cespare/xxhash/v2.Sum64String", "github.com/cespare/xxhash/v2.Sum64", "hash/fnv", "hash/crc32", "hash/crc64", "hash/maphash"}
 
+// hashThroughParam: the call goes through a function-typed parameter for which every call site
+// of the enclosing function passes one of the pure hash functions ("the hash is a parameter"):
+// that function's name, or "".
+func hashThroughParam(w *load.World, call *ssa.Call) string {
+	par, ok := call.Call.Value.(*ssa.Parameter)
+	if !ok || call.Call.IsInvoke() {
+		return ""
+	}
+	fn := par.Parent()
+	idx := -1
+	for i, q := range fn.Params {
+		if q == par {
+			idx = i
+		}
+	}
+	sites := staticCallSites(w, fn)
+	if idx < 0 || len(sites) == 0 {
+		return ""
+	}
+	name := ""
+	for _, s := range sites {
+		if idx >= len(s.Common().Args) {
+			return ""
+		}
+		g, ok := s.Common().Args[idx].(*ssa.Function)
+		if !ok {
+			return ""
+		}
+		pure := false
+		for _, h := range pureHashes {
+			if strings.Contains(g.String(), h) {
+				pure = true
+			}
+		}
+		if !pure {
+			return ""
+		}
+		name = g.String()
+	}
+	return name
+}
+
 func Purity(w *load.World, c *core.Collector) {
 	props := []string{"C13"}
 	rh := w.Func("/cluster", "RendezvousHash")
@@ -185,6 +227,9 @@ func Purity(w *load.World, c *core.Collector) {
 		call, ok := in.(*ssa.Call)
 		if !ok {
 			return false
+		}
+		if hashThroughParam(w, call) != "" {
+			return true
 		}
 		if g := call.Call.StaticCallee(); g != nil {
 			for _, h := range pureHashes {
@@ -245,12 +290,12 @@ func Purity(w *load.World, c *core.Collector) {
 				continue
 			}
 			g := call.Call.StaticCallee()
-			if g == nil {
+			isHash := hashThroughParam(w, call) != "" && len(call.Call.Args) > 0
+			if g == nil && !isHash {
 				continue
 			}
-			isHash := false
 			for _, h := range pureHashes {
-				if strings.HasPrefix(g.String(), h) || strings.Contains(g.String(), h) {
+				if g != nil && (strings.HasPrefix(g.String(), h) || strings.Contains(g.String(), h)) {
 					isHash = true
 				}
 			}
@@ -276,6 +321,9 @@ func Purity(w *load.World, c *core.Collector) {
 				} else {
 					c.Add("PURITY", "hash-input", core.OK, w.At(in), "", props...)
 				}
+			}
+			if g == nil {
+				continue
 			}
 			if strings.HasPrefix(g.String(), "slices.SortFunc") || strings.HasPrefix(g.String(), "sort.Slice") || strings.HasPrefix(g.String(), "slices.SortStableFunc") {
 				var cmpFn *ssa.Function
